@@ -308,3 +308,38 @@ Lemma read_fault_rollback_instance :
   l = [(1, SSuperseded); (2, SDeployed); (3, SFailed)] /\ out = OErr EOtherErr /\
   In (TStore "update" 3 SFailed) t.
 Proof. vm_compute. repeat split. auto 20. Qed.
+
+(* ---- Storage.Create with a failing read: nothing is deleted, nothing is created ---- *)
+Section PruneRead.
+  Variable K : Type.
+  Variable kh : forall e : eff, K -> K * resp e * list kev.
+  Variable dresp : forall e : eff, resp e.
+
+  Lemma step_history f (s : rstate K) :
+    crash f = None -> dead s = false -> step K kh dresp f SHistory s = (s, led s).
+  Proof.
+    intros Hc Hd. destruct s as [l k nw nm d t]; cbn in Hd; subst d. destruct f as [w c]; cbn in Hc; subst c.
+    reflexivity.
+  Qed.
+
+  (* Storage.Create has two reads (the history, the deployed lookup of the pruning).  Whichever fails: either
+     it is not reached (the history is within the limit) and the run is the fault-free one, or Create answers
+     an error and the state - ledger, cluster, counters, trace - is exactly what it was: no revision pruned,
+     no record created.  (Seeded C01-10 made the deployed lookup answer "nothing deployed" instead.) *)
+  Theorem prune_read_fault f (r : release) (m n : nat) (s : rstate K) :
+    crash f = None -> dead s = false -> n < 2 ->
+    let res := run K kh dresp f (rfail n (storage_createR r (S m))) s in
+    res = run K kh dresp f (storage_create r (S m)) s \/ res = (s, SFail).
+  Proof.
+    intros Hc Hd Hn. destruct n as [|[|n]]; [| |lia].
+    - right. reflexivity.
+    - unfold storage_createR, storage_create, remove_least_recentR, remove_least_recent.
+      cbv beta delta [rlift rperform perform]. cbn [rbind rfail erase bind run].
+      rewrite (step_history f s Hc Hd).
+      destruct (led s) as [|x t] eqn:El.
+      + left. reflexivity.
+      + destruct (Nat.leb (List.length (x :: t)) m) eqn:E.
+        * left. cbn [rbind rfail erase bind run]. reflexivity.
+        * right. cbn [rbind rfail erase bind run]. reflexivity.
+  Qed.
+End PruneRead.
